@@ -848,6 +848,8 @@ def run(ctx):
                 meta.append(("safe", short, st))
                 cmds.append(("safe_trace", [p.encode() for p in st["refs_before"]], dsfs.sx_trace(st["trace"])))
                 meta.append(("strict", short, st))
+                cmds.append(("safe_trace_gen", [p.encode() for p in st["refs_before"]], dsfs.sx_trace(st["trace"])))
+                meta.append(("gen", short, st))
                 # information (DESIGN 4.2): is the deterministic model trace (Dataset/Ops.v) exactly what the code did?
                 from harness.props.C19 import blocks_of
                 pt, rgs, mdc, cmdc, norm = blocks_of([(c[0], c[1], b"") if c[0] == "write" else c for c in st["trace"]])
@@ -868,6 +870,7 @@ def run(ctx):
     model_trace = {"equal": 0, "different": 0, "examples": []}
     seq_model = {"equal": 0, "different": 0, "examples": []}
     strict = {"true": 0, "false": 0}
+    sym_info = {"true": 0, "false": 0}
     for (kind, short, st), o in zip(meta, outs):
         if kind == "model":
             mt = [[bytes(x) if isinstance(x, (bytes, bytearray)) else x for x in c] for c in o[0]] if isinstance(o, list) and o else o
@@ -885,7 +888,16 @@ def run(ctx):
             # information: the stricter relation `safe_trace` (_metadata before _common_metadata), which the code implements today
             strict["true" if o == 1 else "false"] += 1
             continue
+        if kind == "gen":
+            # the general commit-point relation (Dataset/CrashGen.v; theorem C07_multi_existing_untouched_general)
+            ok = ctx.correspondence("check_safe_gen(recorded trace of the real append) = true", short, 1, o)
+            if not ok and ctx.broken and "trace" not in ctx.broken[-1]:
+                ctx.broken[-1]["trace"] = dsfs.trace_json(st["trace"], 200)
+            continue
         if kind == "safe":
+            sym_info["true" if o == 1 else "false"] += 1        # information: the stricter relation today's code is also inside
+            continue
+        if kind == "safe_old":
             ok = ctx.correspondence("check_safe_trace_sym(recorded trace of the real append) = true", short, 1, o)
             if not ok and ctx.broken and "trace" not in ctx.broken[-1]:
                 ctx.broken[-1]["trace"] = dsfs.trace_json(st["trace"], 200)
@@ -899,6 +911,7 @@ def run(ctx):
             if not same and len(seq_model["examples"]) < 3:
                 seq_model["examples"].append({"case": short, "model": str(model)[:200], "real": [st["loc"], len(st["after"])]})
     ctx.extra["strict_safe_trace_on_recorded_traces"] = strict
+    ctx.extra["safe_trace_sym_on_recorded_traces"] = sym_info
     ctx.extra["append_seq_model_vs_real_bytes"] = seq_model
     ctx.notes.append("Append.append_simple (footer_loc + seq_write of the recorded write chunks) gives byte-exactly the file the real append left in %d of %d "
                      "single-file appends (information, not an obligation)" % (seq_model["equal"], seq_model["equal"] + seq_model["different"]))
